@@ -2,6 +2,7 @@
 (hand-written model Model/TxVerify.v + correspondence with coin.Transaction.Verify /
 VerifyUnsigned / VerifyInputSignatures / DeserializeTransaction)."""
 import vf
+from props import _txw
 
 SPEC = {
     "uses_gen": True,          # the output-coin sum uses the translated mathutil.AddUint64
@@ -30,4 +31,8 @@ SPEC = {
 
 
 def run(ctx):
-    vf.standard_run(ctx, SPEC)
+    _txw.run_precompiled(ctx, SPEC)
+
+
+def replay(ctx, path):
+    return _txw.replay(ctx, SPEC, path)
